@@ -86,6 +86,7 @@ LEVEL_NOTE = ("Trusted: Lean kernel; axioms propext/Classical.choice/Quot.sound 
               "its printer model (_compress_hextets) proved to produce exactly the RFC 5952 text written there; the renderings are proved against "
               "positional-numeral predicates (width / digits / value) of the same file, which the oracle also evaluates on the implementation's answers.")
 LEVEL_NOTE += (" " + "regexes_as_modelled (Ccp.RxC11): the regex calls of IPv4Obj.__init__ and IPv6Obj.__init__ with their pattern texts and flags (_RGX_IPV4ADDR_WITH_MASK and _RGX_IPV6ADDR = _IPV6_REGEX_STR with _IPV6_RGX_CLS substituted, both re.VERBOSE, compared in canonical verbose form; the three in-line IPv4 checks; the \\s+ split and the '/' join) are re-read from /repo's AST on every run (harness/rxscan.py) and proved equal to the literals the automata matchV4 / matchV6 / fullDigits / fullQuad / searchQuad / splitWs were written for, so an edit of one of these regexes breaks an obligation of this check (the regex -> automaton step itself stays modelled, measured by the correspondence).")
+LEVEL_NOTE += (" Scan sets as revised: regexes_as_modelled ties the regex-engine calls with the pattern in canonical form (canonical verbose form without the flag, group names and redundant escapes removed, per-value specialisation of a pattern passed to a same-file helper or built from a name that ranges over a constant collection, always-true searches left out), flags, re.sub replacements and the separator arguments of str.split/join/replace/strip; the literal tests (\"lit\" in x, == against string literals and their subscripts, startswith) are informational definitions Gen.rx...Info, no theorem is about them.")
 EXHAUSTIVE = {"quick": False, "thorough": False}
 ASSUMPTIONS = [
     "ipaddress (CPython 3.12) parsing/rendering is re-implemented in the model; agreement measured by three-way correspondence",
